@@ -39,7 +39,8 @@ TRUSTED_BASE = [
     "whose acquire on a held lock does not return before a release (the model's Acquire stutters); `with lock:` releases on exit",
     "the harness scheduler (harness/props/c16_sched.py: sys.settrace + f_trace_opcodes, LockProxy substituted for the *instance attribute* "
     "_reqid_generator_guard) realises the chosen schedule and logs every access to _cur_req_id / the lock / the opener in execution order; "
-    "accesses are recognised by attribute name in the bytecode of ak/conn_http.py",
+    "accesses are recognised by attribute name in the bytecode of ak/conn_http.py; a thread that blocks on any lock other than the proxied "
+    "attribute cannot be scheduled around: the case is reported as threads-stuck after 4 s",
     "urllib.request.Request stores each header under key.capitalize() (later duplicates win) -- modelled in sent_value, compared on every case",
     "gen/C16_Consts.v: impl_prog (shared accesses of do_request's id section and of _generate_request_id, in program order, inside/outside the "
     "with block), the header keys, the id format pieces and the 'derived connections share conn_impl' check are read from ak/conn_http.py by "
@@ -53,7 +54,8 @@ ASSUMPTIONS = [
 ]
 MODELLED = ("ak/conn_http.py: _HttpConnImpl.__init__ (counter/lock), do_request lines 143-146 and 168-180 (header section, Request construction "
             "as far as the X-request-id header is concerned), _generate_request_id, _HttpConnBase.__init__/get/post/... only through the "
-            "extracted fact that every derived connection calls do_request of the root's _HttpConnImpl; url/data/adapters are not modelled")
+            "extracted facts that a wrapper stores its parent's conn_impl (wrap_rule, impl_of) and that every request method calls "
+            "self.conn_impl.do_request; url/data/adapters/RequestArguments are not modelled (exercised by the correspondence runs only)")
 
 
 class ExtractError(Exception):
